@@ -124,6 +124,17 @@ Hist(e) ==
     IN Judge(fin.bad = <<>>, "hist", [first |-> fin.bad])
 
 Dac(e) == Judge(\A v \in 1..15 : e.amps[v + 1] > e.amps[v], "dac", [amps |-> e.amps])
+\* both chip types: a slow attack ramp is a rising staircase of 32 settled amplitudes (a step may repeat the
+\* previous amplitude - the AY has 16 distinct levels - but two steps always rise), fixed volume v sounds
+\* exactly like envelope level 2v+1, and the fixed volumes rise strictly
+EnvDac(e) ==
+    LET seen == \A i \in 1..32 : e.amps[i] >= 0
+        rising == \A i \in 1..31 : e.amps[i + 1] >= e.amps[i]
+        rising2 == \A i \in 1..30 : e.amps[i + 2] > e.amps[i]
+        same == \A v \in 0..15 : e.fixed[v + 1] - e.amps[2 * v + 2] \in -2..2
+        strict == \A v \in 1..15 : e.fixed[v + 1] > e.fixed[v]
+    IN Judge(seen /\ rising /\ rising2 /\ same /\ strict, "envdac",
+             [chip |-> e.chip, ch |-> e.ch, seen |-> seen, rising |-> rising, rising2 |-> rising2, same |-> same, strict |-> strict, amps |-> e.amps, fixed |-> e.fixed])
 Pan(e) ==
     LET cls == PanClass(e.mode, e.ch)
         ok == CASE cls = "left" -> e.l > 1000 /\ e.r = 0
@@ -157,7 +168,7 @@ AyRetrig(e) ==
 
 Step(e) ==
     CASE e.ev = "ayretrig" -> AyRetrig(e) [] e.ev = "tone" -> Tone(e) [] e.ev = "noise" -> Noise(e) [] e.ev = "env" -> Env(e) [] e.ev = "mix" -> Mix(e) [] e.ev = "hist" -> Hist(e)
-      [] e.ev = "dac" -> Dac(e) [] e.ev = "pan" -> Pan(e) [] e.ev = "freq" -> Freq(e) [] e.ev = "ayport" -> AyPort(e)
+      [] e.ev = "dac" -> Dac(e) [] e.ev = "envdac" -> EnvDac(e) [] e.ev = "pan" -> Pan(e) [] e.ev = "freq" -> Freq(e) [] e.ev = "ayport" -> AyPort(e)
 
 TraceNext == l <= Len(Rec) /\ Step(Rec[l]) /\ l' = l + 1
 TraceSpec == TraceInit /\ [][TraceNext]_tvars
